@@ -37,6 +37,18 @@ def step_cases(fams, rand_kw=None, nq=250, nt=2500, rq=200, rt=3000):
     return cases
 
 
+def unit2_cases(nq=120, nt=1200):
+    """simulate(unit_time=2) on absence-free models (time advances by 2 per step)."""
+    def cases(tier, seed):
+        out = []
+        for c in _rand(tier, seed + 2, nq, nt, "U", absences=False):
+            c["opts"]["unit"] = 2
+            c["opts"]["maxTime"] = 40
+            out.append(c)
+        return _sim(out)
+    return cases
+
+
 def l1(*insts):
     def f(tier):
         return [dict(i) for i in insts if tier == "thorough" or not i.get("thorough_only")]
@@ -75,10 +87,10 @@ PLANS = {
     "C01": dict(cases=step_cases(["deps", "abs"], NOFAC),
                 l1=l1(dict(family="deps", invariants=["Inv_C01"], properties=["Prop_C01"]),
                       dict(family="abs", invariants=["Inv_C01"], properties=["Prop_C01"]))),
-    "C02": dict(cases=step_cases(["deps", "alloc", "abs"], FULL),
+    "C02": dict(cases=both(unit2_cases(), step_cases(["deps", "alloc", "abs"], FULL)),
                 l1=l1(dict(family="deps", invariants=["Inv_C02"], properties=["Prop_C02"]),
                       dict(family="alloc", invariants=["Inv_C02"], properties=["Prop_C02"]))),
-    "C03": dict(cases=step_cases(["alloc", "place"], FULL),
+    "C03": dict(cases=both(unit2_cases(), step_cases(["alloc", "place"], FULL)),
                 l1=l1(dict(family="alloc", invariants=["Inv_C03"], properties=["Prop_C03"]),
                       dict(family="place", invariants=["Inv_C03"], properties=["Prop_C03"]))),
     "C04": dict(cases=step_cases(["alloc", "place"], FULL),
@@ -90,7 +102,7 @@ PLANS = {
     "C06": dict(cases=step_cases(["deps", "alloc"], FULL),
                 l1=l1(dict(family="deps", invariants=["Inv_C06"], properties=["Prop_C06"]),
                       dict(family="alloc", invariants=["Inv_C06"], properties=["Prop_C06"]))),
-    "C07": dict(cases=step_cases(["alloc", "abs"], FULL),
+    "C07": dict(cases=both(unit2_cases(), step_cases(["alloc", "abs"], FULL)),
                 l1=l1(dict(family="alloc", invariants=["Inv_C07"]),
                       dict(family="abs", invariants=["Inv_C07"]))),
     "C08": dict(cases=step_cases(["deps", "place"], FULL),
@@ -250,6 +262,13 @@ def c09_cases(tier, seed):
         ops += [{"op": "backward", "light": True}, _cmp({"op": "simulate", "light": True}, 1, "C09", "lg")]
         ops += [{"op": "rebuild", "plain": True}, _cmp({"op": "simulate", "light": True}, 1, "C09", "lg")]
         out.append(_hist(cfg, "c09", ops))
+        if not cfg["opts"]["absL"] and len(out) % 4 == 0:
+            # no hidden state: editing the result of one run must not change a later run of a
+            # freshly built project (calls that leave absence_time_list at its default)
+            ops = [{"op": "simulate", "light": True, "defaultAbs": True},
+                   {"op": "insert_absence", "L": [1, 2]}, {"op": "rebuild"},
+                   _cmp({"op": "simulate", "light": True, "defaultAbs": True}, 1, "C09", "lg")]
+            out.append(_hist(cfg, "c09leak", ops))
     return out
 
 
@@ -376,7 +395,7 @@ def c08_hist_cases(tier, seed):
     rng = _random.Random(seed + 8)
     out = []
     pool = _pool(tier, seed, ["deps", "placeflat"], 40, 400, dict(), 60, 600)
-    alphabet = ["sim", "sim_light", "init", "pause_resume", "backward", "reverse"]
+    alphabet = ["sim", "sim_light", "init", "pause_resume", "backward", "reverse", "sim_keep_logs", "sim_keep_state"]
     for cfg in pool:
         ops = []
         for _ in range(3 if tier == "quick" else 4):
@@ -386,7 +405,12 @@ def c08_hist_cases(tier, seed):
             elif a == "sim_light":
                 ops.append({"op": "simulate", "light": True, "opts": {"absL": [1]}})
             elif a == "init":
-                ops.append({"op": "initialize", "state": rng.random() < 0.7, "log": True})
+                ops.append({"op": "initialize", "state": rng.random() < 0.7, "log": rng.random() < 0.8})
+            elif a == "sim_keep_logs":      # state re-initialised, logs (and time) continue
+                ops.append({"op": "simulate", "initState": True, "initLog": False, "light": True,
+                            "opts": {"maxTime": 60}})
+            elif a == "sim_keep_state":     # logs (and time) re-initialised, state kept
+                ops.append({"op": "simulate", "initState": False, "initLog": True, "light": True})
             elif a == "pause_resume":
                 ops += [{"op": "simulate", "opts": {"maxTime": rng.randint(0, 6)}, "light": True},
                         {"op": "simulate", "initState": False, "initLog": False}]
@@ -394,7 +418,7 @@ def c08_hist_cases(tier, seed):
                 ops.append({"op": "backward", "due": rng.random() < 0.5, "reverse": rng.random() < 0.5})
             else:
                 ops.append({"op": "reverse"})
-        if ops[0]["op"] in ("initialize", "reverse"):
+        if ops[0]["op"] in ("initialize", "reverse") or ops[0].get("initState") is False or ops[0].get("initLog") is False:
             ops.insert(0, {"op": "simulate", "light": True})
         out.append(_hist(cfg, "c08", ops))
     return out
@@ -427,6 +451,6 @@ PLANS["C15"] = dict(cases=c15_cases, l1=l1(dict(family="deps", invariants=["Inv_
 PLANS["C17"] = dict(cases=c17_cases)
 PLANS["C18"] = dict(cases=c18_cases)
 PLANS["C16"] = dict(cases=c16_cases)
-PLANS["C08"]["cases"] = both(PLANS["C08"]["cases"], c08_hist_cases)
+PLANS["C08"]["cases"] = both(PLANS["C08"]["cases"], c08_hist_cases, unit2_cases())
 PLANS["C10"]["cases"] = both(PLANS["C10"]["cases"], c10_hist_cases)
 UNREGISTERED |= set()
